@@ -72,7 +72,8 @@ Theorem add_aligned_array_of_bits_appends s x :
 Proof.
   intros HI Hok Hal Hcap. destruct (packbits_spec x) as (Pok & Plen & Pbits).
   destruct (add_aligned_bytes_appends s (packbits x) HI Hok Pok Hal ltac:(rewrite Plen; exact Hcap)) as (s1 & E & (Ho & Hl & Hk & Hb)).
-  unfold add_aligned_bytes in E. unfold add_aligned_array_of_bits. rewrite Hal in *. cbn [N.eqb negb] in *.
+  unfold add_aligned_bytes in E. unfold add_aligned_array_of_bits. rewrite Hal in *.
+  rewrite (ensure_writable_true s (s_off s / 8) (blen (packbits x))) in * by (rewrite Plen; exact Hcap). cbn [N.eqb negb] in *.
   destruct (assign_slice (s_buf s) (s_off s / 8) (packbits x)) as [b|]; [|discriminate]. injection E as E. subst s1. cbn [s_off s_buf] in *.
   eexists. split; [reflexivity|]. unfold appended. cbn [s_off s_buf]. rewrite Plen in *. set (n := N.of_nat (length x)) in *.
   split; [reflexivity|]. split; [exact Hl|]. split; [exact Hk|]. intros p. rewrite Hb.
